@@ -45,7 +45,13 @@ func (c *RefreshTokenGrantHandler) HandleTokenEndpointRequest(ctx context.Contex
 	refresh := request.GetRequestForm().Get("refresh_token")
 	signature := c.RefreshTokenStrategy.RefreshTokenSignature(ctx, refresh)
 	originalRequest, err := c.TokenRevocationStorage.GetRefreshTokenSession(ctx, signature, request.GetSession())
-	if errors.Is(err, fosite.ErrInactiveToken) {
+	if errors.Is(err, fosite.ErrInactiveToken) && originalRequest == nil {
+		// The storage reported the token as used but did not return the request it belongs to: the token is refused,
+		// its family cannot be identified.
+		return errorsx.WithStack(fosite.ErrInvalidGrant.WithWrap(err).
+			WithHint("The refresh token was already used.").
+			WithDebug("The storage returned no request for the inactive refresh token: related tokens could not be revoked."))
+	} else if errors.Is(err, fosite.ErrInactiveToken) {
 		// Detected refresh token reuse
 		if rErr := c.handleRefreshTokenReuse(ctx, signature, originalRequest); rErr != nil {
 			return errorsx.WithStack(rErr)
